@@ -4,7 +4,7 @@ import svc_common
 
 PROP = dict(
     id="C10",
-    corr=["Model/SvcCorr.vo", "Model/C09Corr.vo"],
+    corr=["Model/SvcCorr.vo", "Model/C09Corr.vo", "Model/C10Scid.vo"],
     design_ref="DESIGN.md §6 C10",
     technique="Coq invariant (distinct active swaps have distinct normalised channel ids) proved by induction over all sequences of service operations, using a step-level frame lemma obtained from the generic engine rule; vm_compute correspondence of lockSwap/request handling against the real SwapService; monitor on observed nodes incl. one schedule-controlled interleaving",
     level_text="Machine-checked for every sequence of peer messages and RPC initiations (sequential semantics), every environment and table set: at most one active swap per channel in either spelling; a request for a busy channel is answered with cancel. The statement over ALL interleavings is kept in full, refuted (lock taken before the request is attached) and recorded as a known finding together with the request-before-recovery window; the spelling defect was repaired (fix: commit).",
@@ -30,6 +30,19 @@ def classify(c):
 def run(ctx):
     svc_common.run_svc(ctx, "c10_monitor", "c10_clauses", classify,
                        lambda c: "two active swaps on one channel / busy-channel request not cancelled (clauses %s)" % sorted(set(c.get("_clauses") or [])))
+    run_scid(ctx)
+
+
+def run_scid(ctx):
+    import vlib
+    d = ctx.harness("scid", outdir=ctx.work + "/scid", args=["-n", 150 if ctx.quick else 3000])
+    if d is None:
+        return
+    res = vlib.eval_cases(d)
+    ctx.rules.append("scid family: the real lightning.Scid.ClnStyle / LndStyle on canonical ids, ids with leading zeros, mixed / other separators and junk, compared with the separator normalisation lockSwap uses; monitor: both renderings name the channel lockSwap takes the id for")
+    ctx.absorb(res, "scid", signature=lambda c: "scid:rendering-changes-more-than-the-separator",
+               mismatch_is_violation=True,
+               describe=lambda c: "lightning.Scid renders %r as %r / %r: the adapters would resolve it to a channel that lockSwap does not take it for" % (c.get("id"), c.get("cln_style"), c.get("lnd_style")))
 
 
 def search(ctx):
